@@ -160,3 +160,68 @@ func (p2p *PeerToPeer) VerifOnPacket(pkt *Packet, p *Peer) {
 	pkt.sender = p.ID()
 	p2p.onPacket(pkt, p)
 }
+
+// ---- authenticator handshake ------------------------------------------------------------
+
+var (
+	VerifProtoAuth                  = p2pProtoAuth
+	VerifProtoAuthSecureRequest     = p2pProtoAuthSecureRequest
+	VerifProtoAuthSecureResponse    = p2pProtoAuthSecureResponse
+	VerifProtoAuthSignatureRequest  = p2pProtoAuthSignatureRequest
+	VerifProtoAuthSignatureResponse = p2pProtoAuthSignatureResponse
+)
+
+// VerifAuthSession lets the harness play the remote end of one connection against the real
+// handshake handlers of an Authenticator (onPeer, onPacket). It only records whether the peer was
+// handed on to the next handler (= authenticated) and exposes the peer object's state.
+type VerifAuthSession struct {
+	a      *Authenticator
+	p      *Peer
+	passed bool
+}
+
+type verifAuthNext struct {
+	*peerHandler
+	s *VerifAuthSession
+}
+
+func (n *verifAuthNext) onPeer(p *Peer) {
+	if n.s.p == p {
+		n.s.passed = true
+	}
+}
+
+// VerifNewAuthSession creates the peer object for conn (incoming = the remote end dialled us) and
+// calls the authenticator's onPeer, as the listener / dialer do. One session at a time per authenticator.
+func VerifNewAuthSession(a *Authenticator, conn net.Conn, incoming bool, l log.Logger) *VerifAuthSession {
+	s := &VerifAuthSession{a: a, p: newPeer(conn, incoming, "", l)}
+	a.setNext(&verifAuthNext{peerHandler: newPeerHandler(a.self, l), s: s})
+	a.onPeer(s.p)
+	return s
+}
+
+// Feed hands a received packet to the authenticator, as Peer.receiveRoutine does.
+func (s *VerifAuthSession) Feed(pkt *Packet) {
+	pkt.sender = s.p.ID()
+	s.a.onPacket(pkt, s.p)
+}
+
+// Passed reports whether the authenticator handed the peer on as authenticated.
+func (s *VerifAuthSession) Passed() bool { return s.passed }
+func (s *VerifAuthSession) Closed() bool { return s.p.IsClosed() }
+
+// ID returns the identity the peer object carries now (nil if none).
+func (s *VerifAuthSession) ID() []byte {
+	if id := s.p.ID(); id != nil {
+		return id.Bytes()
+	}
+	return nil
+}
+
+// SessionSecret returns the secret of this very session as derived on the authenticator's side.
+func (s *VerifAuthSession) SessionSecret() []byte {
+	if s.p.secureKey == nil {
+		return nil
+	}
+	return s.p.secureKey.extra
+}
